@@ -34,9 +34,8 @@ TypesOK(m, bs)     == \A i \in DOMAIN bs : bs[i].ft = EN!ResolveSpec(m.btspec, E
 \* the input with the separation the processor documents (m.rmd of the recording is a placeholder when m.rmdspec is there)
 Resolved(m) == [m EXCEPT !.rmd = EN!ResolveSpec(m.rmdspec, EN!DefaultRmd)]
 
-JudgeBonds(m, cx, bs, tag) ==
-  LET exp == EN!ExpectedDecl(m)
-      got == PairSet(bs)
+JudgeBonds(m, cx, exp, bs, tag) ==
+  LET got == PairSet(bs)
   IN IF ~BondsWellFormed(m, bs) THEN tag \o "bond-to-itself-or-unknown-particle"
      ELSE IF ~NoDuplicates(bs) THEN tag \o "pair-bonded-more-than-once"
      ELSE IF got \ exp # {} THEN
@@ -56,20 +55,21 @@ SameNetwork(bs, ts) ==
         Norm(bs[i]) = Norm(ts[j]) => bs[i].len = ts[j].len /\ EN!Abs(bs[i].k - ts[j].k) <= 1
 
 Judge(e) ==
-  LET m  == Resolved(e.m)
-      cx == EN!Ctx(m)
+  LET m   == Resolved(e.m)
+      cx  == EN!Ctx(m)
+      exp == EN!ExpectedWith(m, cx)
   IN IF e.rec.exc THEN "exception"
      ELSE IF EN!HasNan(m) THEN
             (IF e.rec.bonds # <<>> THEN "network-built-despite-undefined-coordinates"
              ELSE IF e.rec.warn = 0 THEN "undefined-coordinates-without-warning"
              ELSE IF ~e.rec.others THEN "other-bonds-changed"
              ELSE "ok")
-     ELSE LET j == JudgeBonds(m, cx, e.rec.bonds, "") IN
+     ELSE LET j == JudgeBonds(m, cx, exp, e.rec.bonds, "") IN
           IF j # "ok" THEN j
           ELSE IF ~e.rec.others THEN "other-bonds-changed"
           ELSE IF ~e.twin.has THEN "ok"
           ELSE IF e.twin.exc THEN "twin-exception"
-          ELSE LET t == JudgeBonds(m, cx, e.twin.bonds, "twin-") IN
+          ELSE LET t == JudgeBonds(m, cx, exp, e.twin.bonds, "twin-") IN
                IF t # "ok" THEN t
                ELSE IF ~SameNetwork(e.rec.bonds, e.twin.bonds) THEN "twin-network-differs"
                ELSE "ok"
